@@ -51,3 +51,15 @@ class PrangeRacesAllSizes(Contract):
                 keep = [{"name": f"{prefix}race_obligations_generated", "ok": False, "undecided": True, "function": spec.name, "backend": "z3-wp", "strength": "U", "detail": "parallel=True kernel without a prange loop that PyVC-U recognised"}]
             out += keep
         return out
+
+
+def _with_selftest(fn):
+    def wrapped(self, tier):
+        from contracts.unbounded import engine_selftest
+
+        return fn(self, tier) + engine_selftest()
+
+    return wrapped
+
+
+PrangeRacesAllSizes.static_obligations = _with_selftest(PrangeRacesAllSizes.static_obligations)
